@@ -1169,19 +1169,21 @@ def i_IMUL(i, fmap):
     if len(i.operands) == 1:
         src = i.operands[0]
         m, d = {8: (al, ah), 16: (ax, dx), 32: (eax, edx), 64: (rax, rdx)}[src.size]
-        r = fmap(m ** src)
+        r = fmap(m).signed() ** fmap(src).signed()
     elif len(i.operands) == 2:
         dst, src = i.operands
         m = d = dst
-        r = fmap(dst ** src)
+        r = fmap(dst).signed() ** fmap(src).signed()
     else:
         dst, src, imm = i.operands
         m = d = dst
-        r = fmap(src ** imm.signextend(src.size))
+        r = fmap(src).signed() ** imm.signextend(src.size).signed()
     lo = r[0 : src.size]
     hi = r[src.size : r.size]
-    fmap[cf] = hi != (lo >> 31)
-    fmap[of] = hi != (lo >> 31)
+    # CF=OF=1 unless the product is the sign extension of its low half:
+    ov = hi != lo.signextend(r.size)[src.size : r.size]
+    fmap[cf] = ov
+    fmap[of] = ov
     d, hi = _r32_zx64(d, hi)
     fmap[d] = hi
     m, lo = _r32_zx64(m, lo)
